@@ -1268,12 +1268,27 @@ func (p *Path) rangeNext(fr *Frame, x *ssa.Next) Value {
 		}
 		b := it.s.B[it.i]
 		if !b.IsConst() {
-			if !p.branch(tt.Ult(b, tt.Const(8, 0x80))) {
-				panic(p.unsupported("range over string with symbolic non-ASCII byte"))
-			}
 			idx := it.i
+			if p.branch(tt.Ult(b, tt.Const(8, 0x80))) {
+				it.i++
+				return &Tuple{V: []Value{tt.True(), tt.Const(64, uint64(idx)), tt.ZExt(b, 32)}}
+			}
+			// symbolic non-ASCII byte: UTF-8 decoding by classes. Two-byte sequences and
+			// invalid lead/continuation bytes are exact; three- and four-byte leads are
+			// not modelled.
+			if p.branch(tt.And(tt.Ule(tt.Const(8, 0xE0), b), tt.Ule(b, tt.Const(8, 0xF7)))) {
+				panic(p.unsupported("range over string with a symbolic 3/4-byte UTF-8 lead"))
+			}
+			if p.branch(tt.And(tt.Ule(tt.Const(8, 0xC2), b), tt.Ule(b, tt.Const(8, 0xDF)))) && it.i+1 < len(it.s.B) {
+				b1 := it.s.B[it.i+1]
+				if p.branch(tt.And(tt.Ule(tt.Const(8, 0x80), b1), tt.Ule(b1, tt.Const(8, 0xBF)))) {
+					it.i += 2
+					r := tt.BOr(tt.Shl(tt.ZExt(tt.BAnd(b, tt.Const(8, 0x1F)), 32), tt.Const(32, 6)), tt.ZExt(tt.BAnd(b1, tt.Const(8, 0x3F)), 32))
+					return &Tuple{V: []Value{tt.True(), tt.Const(64, uint64(idx)), r}}
+				}
+			}
 			it.i++
-			return &Tuple{V: []Value{tt.True(), tt.Const(64, uint64(idx)), tt.ZExt(b, 32)}}
+			return &Tuple{V: []Value{tt.True(), tt.Const(64, uint64(idx)), tt.Const(32, 0xFFFD)}}
 		}
 		// concrete: decode natively
 		rest := make([]byte, 0, 4)
